@@ -165,18 +165,28 @@ def hook_name(vc, hook):
 ADDR = ("example.com", 443)
 
 
-def _open_setup(vc, address=ADDR, proto="tcp"):
+ADDR2 = ("redirected.example", 8443)
+_OTHER_SEMS = {}     # id(handler) -> semaphores of the addresses this connection does NOT end up connecting to
+
+
+def _open_setup(vc, address=ADDR, proto="tcp", rewrite_to=None):
+    """rewrite_to: the address an addon assigns to data.server.address in the server_connect hook (legal: the hook exists for this).
+    Returns `sem` = the semaphore of the address actually connected to (the address at connect time)."""
     _common_summaries(vc)
     client = mk_client(vc)
     server = mk_server(vc, address=address, transport_protocol=proto)
-    sem = vc.new("props.C09:SemStub", held=0)
+    sem_orig = vc.new("props.C09:SemStub", held=0)
+    sem_new = vc.new("props.C09:SemStub", held=0)
+    sem = sem_new if rewrite_to else sem_orig
+    _OTHER_SEMS.clear()
     task = vc.new("props.C09:TaskStub", cancel_requests=0, was_cancelled=False, exc=None)
     h = vc.new("props.C09:HandlerStub", client=client, transports=vc.dict([(server, vc.new("mitmproxy.proxy.server:ConnectionIO", handler=task, reader=None, writer=None))]),
-               max_conns=vc.dict([(address, sem)] if address else []))
+               max_conns=vc.dict(([(address, sem_orig)] if address else []) + [(ADDR2, sem_new)]))
+    _OTHER_SEMS[id(h)] = [sem_orig if rewrite_to else sem_new]
     cmd = vc.new("mitmproxy.proxy.commands:OpenConnection", connection=server, blocking=True)
     vc.summary("_asyncio:current_task", lambda v: task)
-    vc.summary("asyncio.streams:open_connection", lambda v, *a, **k: v.awaitable("connect", "tcp"))
-    vc.summary("mitmproxy_rs.udp:open_udp_connection", lambda v, *a, **k: v.awaitable("connect", "udp"))
+    vc.summary("asyncio.streams:open_connection", lambda v, *a, **k: v.awaitable("connect", "tcp", a[0], a[1]))
+    vc.summary("mitmproxy_rs.udp:open_udp_connection", lambda v, *a, **k: v.awaitable("connect", "udp", a[0], a[1]))
     vc.summary(CH + ".handle_connection", lambda v, self_, conn: v.awaitable("handle_connection", conn))
     return h, cmd, server, client, sem, task
 
@@ -185,10 +195,13 @@ class OpenEnv:
     """The environment of one open_connection run: records what happened at each suspension point and checks the
     point-wise obligations there."""
 
-    def __init__(self, vc, h, cmd, server, sem, connect_result, hook_sets_error=None, allow_cancel=True):
+    def __init__(self, vc, h, cmd, server, sem, connect_result, hook_sets_error=None, allow_cancel=True, hook_rewrites_address=None):
         from mitmproxy.connection import ConnectionState
         self.S = ConnectionState
         self.vc, self.h, self.cmd, self.server, self.sem = vc, h, cmd, server, sem
+        self.other_sems = _OTHER_SEMS.get(id(h), [])
+        self.hook_rewrites_address = hook_rewrites_address
+        self.connected_to = None
         self.connect_result = connect_result
         self.hook_sets_error = hook_sets_error
         self.allow_cancel = allow_cancel
@@ -205,6 +218,8 @@ class OpenEnv:
         vc.ensure("open_only_while_semaphore_held", Implies(Not(vc.eq(st, self.S.CLOSED)), self.sem.held == 1))
         io = self._io()
         vc.ensure("socket_registered_only_while_semaphore_held", Implies(self.sem.held == 0, io is None or isnone(io.writer) or io.writer.closed > 0))
+        # the permit must be the one of the address actually connected to (the address at connect time), never another address's
+        vc.ensure("no_permit_of_another_address_held", And(*[s.held == 0 for s in self.other_sems]) if self.other_sems else True)
 
     def _io(self):
         tr = self.h.transports
@@ -231,6 +246,11 @@ class OpenEnv:
                 self.completed.append(ev.reply)
         self.log.append(name)
         self.point_obligations(name)
+        if kind == "connect":
+            conc = lambda x: x.concrete() if hasattr(x, "concrete") else x
+            self.connected_to = (conc(item[3]), conc(item[4]))
+            vc.ensure("connect.to_the_address_set_by_the_hook", self.connected_to == tuple(self.hook_rewrites_address or ADDR))
+            vc.ensure("connect.holds_the_permit_of_the_connected_address", self.sem.held == 1)
         if self.allow_cancel and kind != "server_event" and vc.branch(vc.fresh_bool("cancelled")):
             self.cancelled_at.append(name)
             if kind == "handle_connection":
@@ -238,6 +258,8 @@ class OpenEnv:
             return vc.throw(_cancelled())
         if kind == "hook" and name == "hook:ServerConnectHook" and self.hook_sets_error is not None:
             self.server.error = self.hook_sets_error
+        if kind == "hook" and name == "hook:ServerConnectHook" and self.hook_rewrites_address is not None:
+            self.server.address = self.hook_rewrites_address      # an addon redirects the connection
         if kind == "connect":
             if self.connect_result == "ok":
                 self.stream = _stream(vc)
@@ -276,6 +298,7 @@ def _pairing_obligations(vc, env, out):
     vc.ensure("server_disconnected.is_last_hook", n_disc == 0 or hooks[-1] == "ServerDisconnectedHook")
     vc.ensure("exit.no_socket_left_registered", env._io() is None or isnone(env._io().writer) or env._io().writer.closed > 0)  # was recorded finding KF-C09-2, repaired in /repo (see known_findings.d/C09.json)
     vc.ensure("exit.semaphore_released", env.sem.held == 0)
+    vc.ensure("exit.no_permit_of_another_address_held", And(*[s.held == 0 for s in env.other_sems]) if env.other_sems else True)
     vc.ensure("exit.not_open", Not(flag_has(env.server.state, env.S.CAN_READ)))  # was recorded finding KF-C09-2, repaired in /repo (see known_findings.d/C09.json)
     vc.ensure("cancellation_propagates_or_completes", out.ok or out.raised_type() is _cancelled())
     vc.ensure("normal_return_only_if_not_cancelled_in_connection", out.ok or len(env.cancelled_at) > 0)
@@ -287,8 +310,9 @@ def s_open(vc):
     proto = vc.case("proto", ["tcp", "udp"])
     connect = vc.case("connect", ["ok", "refused", ""])
     killed = vc.case("server_connect_hook_sets_error", [None, "killed by addon"])
-    h, cmd, server, client, sem, task = _open_setup(vc, proto=proto)
-    env = OpenEnv(vc, h, cmd, server, sem, connect, hook_sets_error=killed)
+    rewrite = vc.case("server_connect_hook_rewrites_address", [None, ADDR2])
+    h, cmd, server, client, sem, task = _open_setup(vc, proto=proto, rewrite_to=rewrite)
+    env = OpenEnv(vc, h, cmd, server, sem, connect, hook_sets_error=killed, hook_rewrites_address=rewrite)
     out = vc.call(CH + ".open_connection", h, cmd, on_yield=env)
     _pairing_obligations(vc, env, out)
     # the layer is told the outcome exactly once unless the task is cancelled before it could
@@ -797,7 +821,8 @@ class _T2Env:
     the fault is performed and the reaching task stays suspended there for a few loop turns, so that a cancellation caused by
     the fault is delivered at exactly that await."""
 
-    def __init__(self, faults, connect_fail=(), refuse=False):
+    def __init__(self, faults, connect_fail=(), refuse=False, redirect_to=None):
+        self.redirect_to = redirect_to    # an addon rewrites data.server.address to this in every server_connect hook
         self.faults = dict(faults)        # label -> fault kind
         self.connect_fail = set(connect_fail)
         self.refuse = refuse
@@ -975,13 +1000,15 @@ def _t2_classes():
                 data.layer = layers.HttpLayer(data.context, HTTPMode.regular)
             if hook.name == "client_connected" and env.refuse:
                 data.error = "refused by block_global"
+            if hook.name == "server_connect" and env.redirect_to is not None:
+                data.server.address = env.redirect_to
             env.hooks.append((hook.name, key))
             await env.reach(f"hook:{hook.name}:{key}", key)
 
     return W, R, ScriptLayer, H
 
 
-def _t2_run(addrs, faults=(), connect_fail=(), refuse=False, script=("client_data", "server_data", "client_eof"), http=False):
+def _t2_run(addrs, faults=(), connect_fail=(), refuse=False, script=("client_data", "server_data", "client_eof"), http=False, redirect_to=None):
     """Run one exchange on the real handler. addrs: upstream addresses, in the order the layer opens them.
     http=True: the handler keeps its real NextLayer -> real HttpLayer (regular proxy mode); the client sends one GET."""
     import asyncio
@@ -989,7 +1016,7 @@ def _t2_run(addrs, faults=(), connect_fail=(), refuse=False, script=("client_dat
     from mitmproxy.connection import Server
     from props import sansio
     W, R, ScriptLayer, H = _t2_classes()
-    env = _T2Env(faults, connect_fail, refuse)
+    env = _T2Env(faults, connect_fail, refuse, redirect_to)
     res = {}
 
     async def settle(limit=400):
@@ -1136,7 +1163,7 @@ def bounded(tier, seed):
               "stream readers/writers, asyncio.open_connection replaced, a scripted multiplexing layer opening 1-2 upstream connections (same or different address); canonical exchange "
               "open -> client data -> server data -> client EOF; at EVERY await position of the canonical run (hooks, connect, read, drain) one fault of {layer closes upstream i (cancel), client EOF, client reset, "
               "inactivity timeout, upstream EOF/reset, write error {EPIPE, ETIMEDOUT (TimeoutError), EHOSTUNREACH (plain OSError)} on client/upstream} is injected (plus ordered pairs of faults at two positions, subsampled by the seed: 500 per configuration, thorough 30000), x connect refusal per upstream; "
-              "plus: real HttpLayer exchange with an addon blocking in each hook and the client leaving; refused client; 7 concurrent connections to one address with cancellation while waiting for the semaphore. "
+              "plus: real HttpLayer exchange with an addon blocking in each hook and the client leaving; refused client; 7 concurrent connections to one address with cancellation while waiting for the semaphore; 7 connections to distinct origins that an addon redirects to one address in server_connect (bound applies to the address connected to). "
               "checked: hook pairing per connection, no unclosed socket / running task / live transport after handle_client returns, <= 5 open per address, termination, refused => no Start. "
               "distinct = (upstreams, connect failures, faults); non-trivial = a fault fired")
     b.bound = "<= 2 upstream connections per exchange (7 in the semaphore family), <= 2 faults per run (single faults exhaustive over positions x kinds, pairs sampled)"
@@ -1195,4 +1222,29 @@ def bounded(tier, seed):
             res = _t2_run(seven, faults={at: f"cancel:{victim}"}, script=("client_data", "client_eof"))
             b.case(("seven", victim, at), nontrivial=bool(res["env"].fired))
             _t2_check(b, res, {"upstreams": "7 x example.com:443", "faults": {at: f"cancel:{victim}"}})
+    # the bound is per address *actually connected to*: an addon redirects connections to distinct origins to one address in server_connect
+    origins = tuple((f"origin{i}.example", 443) for i in range(7))
+    TARGET = ("one-backend.example", 8443)
+    for label, addrs in (("7 distinct origins", origins), ("4 origins + 3 x the target itself", origins[:4] + (TARGET,) * 3)):
+        desc = {"upstreams": label, "server_connect_hook_redirects_to": list(TARGET)}
+        base = _t2_run(addrs, script=("client_data",), redirect_to=TARGET)
+        b.case(("redirected", label, "base"), nontrivial=True)
+        _t2_check(b, base, dict(desc, faults={}))
+        if base["env"].max_open.get(TARGET, 0) != 5 or [a for a in base["env"].max_open if a != TARGET]:
+            b.fail("t2.redirected_family_reaches_the_bound_at_the_target_only", desc, f"max open {base['env'].max_open}")
+        for victim in ("s1", "s6", "s7"):
+            for at in ("read:s5", "hook:server_connected:s5", "read:client#1", "hook:server_connect:s7"):
+                res = _t2_run(addrs, faults={at: f"cancel:{victim}"}, script=("client_data", "client_eof"), redirect_to=TARGET)
+                b.case(("redirected", label, victim, at), nontrivial=bool(res["env"].fired))
+                _t2_check(b, res, dict(desc, faults={at: f"cancel:{victim}"}))
+    # two connections rewritten to the same address, every single fault
+    for addrs in ((A1, A2),):
+        base = _t2_run(addrs, redirect_to=TARGET)
+        _t2_check(b, base, {"upstreams": [list(a) for a in addrs], "server_connect_hook_redirects_to": list(TARGET), "faults": {}})
+        b.case(("redirected2", "base"), nontrivial=True)
+        for p in dict.fromkeys(base["env"].trace):
+            for k in ("client_eof", "timeout", "cancel:s1", "cancel:s2", "server_eof:s1", "write_timeout:s2"):
+                res = _t2_run(addrs, faults={p: k}, redirect_to=TARGET)
+                b.case(("redirected2", p, k), nontrivial=bool(res["env"].fired))
+                _t2_check(b, res, {"upstreams": [list(a) for a in addrs], "server_connect_hook_redirects_to": list(TARGET), "faults": {p: k}})
     return b
